@@ -660,6 +660,11 @@ func Run(c *core.Ctx) core.FinishOpts {
 	for _, q := range vendoredTestStrings() {
 		seeds = append(seeds, seedStmt{"vendored-tests", q})
 	}
+	firstAdjacency := len(seeds)
+	for _, q := range adjacencyStatements() {
+		seeds = append(seeds, seedStmt{"adjacency", q})
+	}
+	c.Note("adjacency_statements_enumerated", len(seeds)-firstAdjacency)
 	var pool []string // statements mutation starts from (all accepted by the parser)
 	accepted := make([]bool, len(seeds))
 	core.Parallel(len(seeds), 16, func(i int) {
@@ -680,6 +685,9 @@ func Run(c *core.Ctx) core.FinishOpts {
 			if i < nScenario {
 				c.Count("seed_rejected_by_parser/"+seeds[i].source, 1)
 			}
+			if i >= firstAdjacency {
+				c.Count("adjacency_rejected_by_parser(not judged)", 1)
+			}
 			return
 		}
 		accepted[i] = true
@@ -690,7 +698,8 @@ func Run(c *core.Ctx) core.FinishOpts {
 		}
 	})
 	for i, ok := range accepted {
-		if ok {
+		// the enumerated adjacency statements are many and alike: only every 40th joins the mutation pool
+		if ok && (i < firstAdjacency || i%40 == 0) {
 			pool = append(pool, seeds[i].sql)
 		}
 	}
